@@ -486,7 +486,9 @@ func init() {
 				// the property at the level of the server: after these bytes and the client's
 				// half-close the REAL connection loop answers and/or closes — it never hangs or spins
 				st := GetStack(StackCfg{Orca: "l1only", Locked: "none", Bits: 0, L1: "std"})
-				if len(data) < 1<<20 {
+				// (a frame that consistently declares a huge body is legitimately waited and allocated
+				// for: zeroing gigabytes takes longer than the probe's patience)
+				if len(data) < 1<<20 && modelAlloc < 1<<24 {
 					_, ending := feedPrefixAndClose(st, "main", data, 2*time.Second)
 					rep.Distribution["server-probe:"+ending]++
 					if ending == "hang" {
